@@ -9,7 +9,7 @@ Trace == ndJsonDeserialize("trace.ndjson")
 ASSUME TLCSet(1, 0) /\ TLCSet(2, {})
 Ev == Trace[l]
 IsEvent(e) == l <= Len(Trace) /\ Ev.op = e /\ l' = l + 1
-Key(c) == CASE c = "A" -> "k1" [] c = "B" -> "k2" [] c = "At" -> "k2" [] c = "A3" -> "k3072" [] c = "A4" -> "k4096" [] c = "Ca" -> "k3072" [] c = "S384" -> "k1" [] c = "S512" -> "k2" [] c = "Kca" -> "k1" [] c = "Kenc" -> "k2" [] c = "Kself" -> "k3072" [] c \in {"L0", "L1", "L2", "L3", "L4", "L5", "L6", "L7"} -> "k1" [] OTHER -> "none"
+Key(c) == CASE c = "A" -> "k1" [] c = "B" -> "k2" [] c = "At" -> "k2" [] c = "A3" -> "k3072" [] c = "A4" -> "k4096" [] c = "Ca" -> "k3072" [] c = "S384" -> "k1" [] c = "S512" -> "k2" [] c = "Kca" -> "k1" [] c = "Kenc" -> "k2" [] c = "Kself" -> "k3072" [] c = "Z2040" -> "k2040" [] c \in {"L0", "L1", "L2", "L3", "L4", "L5", "L6", "L7"} -> "k1" [] OTHER -> "none"
 Align8(n) == ((n + 7) \div 8) * 8
 RECURSIVE TableLen(_)
 TableLen(es) == IF es = <<>> THEN 0 ELSE Align8(Head(es).dwlength) + TableLen(Tail(es))
